@@ -954,6 +954,14 @@ class Frame:
                 if getattr(obj, "_frozen_origin", None):
                     self.eng.oblige(False, f"mutation of module-level table {obj._frozen_origin}")  # type: ignore
                 obj[key] = v
+            elif type(obj) is dict and is_sym(key) and not getattr(obj, "_frozen_origin", None):
+                # (additive) local dict keyed by symbolic terms: overwrite the entry whose key equals `key`, else insert
+                if key not in obj:           # not the identical term: it must denote a key that is not there yet
+                    for k in list(obj):
+                        if (isinstance(k, (int, str)) or is_sym(k)) and smt.sort_of(k) == key.sort:
+                            self.eng.oblige(Not(Eq(key, k)), "dict store under a symbolic key: the key differs from the "
+                                                             "keys already present (no aliasing of symbolic keys)")
+                obj[key] = v
             else:
                 raise OutsideSubset("subscript store with symbolic key/container")
         else:
@@ -1422,7 +1430,10 @@ class Frame:
 
     def table_lookup_term(self, table: Dict[Any, Any], key: T) -> Any:
         eng = self.eng
-        keys = [k for k in table if isinstance(k, (int, str)) and smt.sort_of(k) == key.sort]
+        # concrete keys of the key's sort, and (additive) symbolic keys of that sort (dicts keyed by symbolic names)
+        keys = [k for k in table if (isinstance(k, (int, str)) or is_sym(k)) and smt.sort_of(k) == key.sort]
+        if any(is_sym(k) and k == key for k in keys):
+            return table[key]            # the identical term is a key of the table
         if eng.decide(Not(Or(*[Eq(key, k) for k in keys]))):
             raise RaiseSignal(ObjV(builtin_class("KeyError"), {}, (key,)))
         vals = [table[k] for k in keys]
